@@ -193,6 +193,9 @@ def run_one(mod, pid, seed, tier, case, timeout):
 
 
 def worker_main(args):
+    if os.environ.get('VF_COVER'):
+        from vf import cover
+        cover.start(os.environ['VF_COVER'])
     load_repo()
     mod = importlib.import_module(f'vf.props.{args.prop.lower()}')
     cases = mod.plan(args.tier, args.seed)
